@@ -49,11 +49,12 @@ class Client:
         self.log: list[list[str]] = []  # log records emitted by this client during current op
         self.error: BaseException | None = None
         self.trace_fn: Callable[..., Any] | None = None
+        self.suspended = 1  # opcode granularity: > 0 = instruction events of this thread ignored
 
 
 class Scheduler:
     def __init__(self, schedule: dict[str, Any], n_clients: int, pkg_dir: str, *,
-                 step_cap: int = 2_000_000, hang_timeout_s: float = 120.0,
+                 step_cap: int = 4_000_000, hang_timeout_s: float = 120.0,
                  preempt_lines: bool = True) -> None:
         self.schedule = schedule
         self.mode = schedule.get("mode", "sequential")
@@ -63,6 +64,11 @@ class Scheduler:
         self.step_cap = step_cap
         self.hang_timeout_s = hang_timeout_s
         self.preempt_lines = preempt_lines and self.mode != "sequential"
+        # "line": sys.settrace line events; "opcode": sys.monitoring INSTRUCTION events on every
+        # code object of the package (incl. dataclass-generated methods) and on a few lock-free
+        # stdlib helpers the package's shared state passes through (cached_property.__get__)
+        self.granularity = schedule.get("granularity", "line") if self.preempt_lines else "line"
+        self._mon_installed = False
         self.decisions: list[list[Any]] = []  # [step, kind, from, to, where]
         self.switches = 0
         self.mid_op_switches = 0
@@ -165,6 +171,14 @@ class Scheduler:
     def _location(self, frame: Any) -> str:
         if frame is None:
             return "-"
+        if isinstance(frame, tuple):
+            code, offset = frame
+            line = 0
+            for start, end, ln in code.co_lines():
+                if start <= offset < end and ln is not None:
+                    line = ln
+                    break
+            return f"{os.path.basename(code.co_filename)}:{line}+{offset}:{code.co_qualname}"
         c = frame.f_code
         return f"{os.path.basename(c.co_filename)}:{frame.f_lineno}:{c.co_qualname}"
 
@@ -230,8 +244,117 @@ class Scheduler:
         return global_trace
 
     def install_trace(self, client: Client) -> None:
-        if self.preempt_lines:
+        if not self.preempt_lines:
+            return
+        if self.granularity == "opcode":
+            client.suspended = 0
+        else:
             sys.settrace(client.trace_fn)
+
+    # ---- opcode granularity (sys.monitoring) -------------------------------------------------
+    TOOL_ID = 4
+
+    def _package_code_objects(self) -> list[Any]:
+        import functools
+        import types
+
+        seen: dict[int, Any] = {}
+        prefix = self.pkg_prefix
+
+        def add_code(co: Any) -> None:
+            if id(co) in seen:
+                return
+            seen[id(co)] = co
+            for k in co.co_consts:
+                if isinstance(k, types.CodeType):
+                    add_code(k)
+
+        def add_callable(v: Any, generated_ok: bool) -> None:
+            f = v
+            for _ in range(4):
+                if isinstance(f, (staticmethod, classmethod)):
+                    f = f.__func__
+                elif isinstance(f, functools.cached_property):
+                    f = f.func
+                elif isinstance(f, property):
+                    for g in (f.fget, f.fset, f.fdel):
+                        if g is not None:
+                            add_callable(g, generated_ok)
+                    return
+                elif hasattr(f, "__wrapped__"):
+                    f = f.__wrapped__
+                else:
+                    break
+            co = getattr(f, "__code__", None)
+            if isinstance(co, types.CodeType) and (
+                    co.co_filename.startswith(prefix) or (generated_ok and co.co_filename == "<string>")):
+                add_code(co)
+
+        def walk_class(cls: type, modname: str, visited: set[int]) -> None:
+            if id(cls) in visited:
+                return
+            visited.add(id(cls))
+            for k in sorted(vars(cls)):
+                v = vars(cls)[k]
+                if isinstance(v, type):
+                    if getattr(v, "__module__", "") == modname:
+                        walk_class(v, modname, visited)
+                else:
+                    add_callable(v, generated_ok=True)  # incl. dataclass-generated methods
+
+        visited: set[int] = set()
+        for name in sorted(sys.modules):
+            if name != "chartparse" and not name.startswith("chartparse."):
+                continue
+            mod = sys.modules[name]
+            for k in sorted(vars(mod)):
+                v = vars(mod)[k]
+                if isinstance(v, type):
+                    if getattr(v, "__module__", "") == name:
+                        walk_class(v, name, visited)
+                else:
+                    add_callable(v, generated_ok=False)
+        co = getattr(functools.cached_property.__get__, "__code__", None)
+        if co is not None:
+            add_code(co)
+        return list(seen.values())
+
+    def _install_monitoring(self) -> None:
+        mon = sys.monitoring
+        E = mon.events
+        try:
+            mon.use_tool_id(self.TOOL_ID, "detsim")
+        except ValueError:
+            mon.free_tool_id(self.TOOL_ID)
+            mon.use_tool_id(self.TOOL_ID, "detsim")
+        self._codes = self._package_code_objects()
+        for co in self._codes:
+            mon.set_local_events(self.TOOL_ID, co, E.INSTRUCTION)
+        yp = self.yield_point
+        cur_thread = threading.current_thread
+
+        def on_instruction(code: Any, offset: int) -> Any:
+            c = getattr(cur_thread(), "sim_client", None)
+            if c is None or c.suspended or c.finished or not c.started:
+                return None
+            c.suspended += 1  # never re-enter from code run by the scheduler itself
+            try:
+                yp(c, (code, offset))
+            finally:
+                c.suspended -= 1
+            return None
+
+        mon.register_callback(self.TOOL_ID, E.INSTRUCTION, on_instruction)
+        self._mon_installed = True
+
+    def _uninstall_monitoring(self) -> None:
+        if self._mon_installed:
+            mon = sys.monitoring
+            for co in self._codes:
+                mon.set_local_events(self.TOOL_ID, co, 0)
+            mon.register_callback(self.TOOL_ID, mon.events.INSTRUCTION, None)
+            mon.free_tool_id(self.TOOL_ID)
+            self._mon_installed = False
 
     # ------------------------------------------------------------------ running
     def run(self, bodies: list[Callable[[Client], None]]) -> None:
@@ -239,14 +362,19 @@ class Scheduler:
 
         def runner(client: Client, body: Callable[[Client], None]) -> None:
             client.sem.acquire()
+            client.started = True
             try:
-                self.install_trace(client)
+                client.suspended = 1  # only operations are pre-emptible (begin_op arms them)
                 body(client)
             except BaseException as e:  # noqa: BLE001 - harness error inside a client
                 client.error = e
             finally:
                 sys.settrace(None)
+                client.suspended = 1
                 self.finish(client)
+
+        if self.preempt_lines and self.granularity == "opcode":
+            self._install_monitoring()
 
         for c, body in zip(self.clients, bodies):
             c.trace_fn = self.make_trace(c)
@@ -264,7 +392,9 @@ class Scheduler:
         self.interleaving.update(f"start>{first.idx};".encode())
         self.current = first
         first.sem.release()
-        if not self.done.acquire(timeout=self.hang_timeout_s):
+        finished = self.done.acquire(timeout=self.hang_timeout_s)
+        self._uninstall_monitoring()
+        if not finished:
             raise HarnessError("HARNESS-HANG: simulated clients did not finish")
         for c in self.clients:
             if c.error is not None:
@@ -292,6 +422,10 @@ class Scheduler:
     def end_op(self, client: Client) -> None:
         client.in_op = False
         client.abort_at = None
+        if self.granularity == "opcode":
+            client.suspended = 1
+        elif self.preempt_lines:
+            sys.settrace(None)
         self.interleaving.update(f"e{client.idx}.{client.op_index};".encode())
 
     class _Atomic:
@@ -300,10 +434,16 @@ class Scheduler:
             self.client = client
 
         def __enter__(self) -> None:
-            sys.settrace(None)
+            if self.sched.granularity == "opcode":
+                self.client.suspended += 1
+            else:
+                sys.settrace(None)
 
         def __exit__(self, *a: Any) -> None:
-            self.sched.install_trace(self.client)
+            if self.sched.granularity == "opcode":
+                self.client.suspended -= 1
+            elif self.client.in_op:
+                self.sched.install_trace(self.client)
 
     def atomic(self, client: Client) -> "Scheduler._Atomic":
         """Observer sections: run untraced, hence without pre-emption."""
@@ -312,7 +452,7 @@ class Scheduler:
     # ------------------------------------------------------------------ results
     def explicit_schedule(self) -> dict[str, Any]:
         """The decisions actually taken, as an explicit (replayable, minimisable) tape."""
-        return {"mode": "explicit",
+        return {"mode": "explicit", "granularity": self.granularity,
                 "switches": [[d[0], d[3]] for d in self.decisions if d[1] in ("sw", "fin", "start")],
                 "where": [d[4] for d in self.decisions if d[1] in ("sw", "fin", "start")]}
 
